@@ -1,0 +1,15 @@
+//go:build verif
+
+// Verification shim (property C11): lets the harness install its own
+// clock.Clock implementation. Add-only, compiled only with -tags verif.
+package contextmanager
+
+import "lunar/toolkit-core/clock"
+
+// VerifC11SetClock makes every later GetClock() return c.
+func (m *ContextManager) VerifC11SetClock(c clock.Clock) *ContextManager {
+	m.mu.Lock()
+	defer m.mu.Unlock()
+	m.clock = c
+	return instance
+}
